@@ -107,7 +107,7 @@ theorem Shape_placeholder {b : B} {dt : DataType} {n : Bool} {md : Metadata} (h 
     rfl
   | dictionary p idx vals index =>
     simp only [Shape] at h
-    obtain ⟨⟨kdt, vdt, rfl⟩, _⟩ := h
+    obtain ⟨⟨kdt, vdt, rfl, hsv⟩, _⟩ := h
     rfl
   | union p fs types offs cur =>
     simp only [Shape] at h
@@ -341,7 +341,7 @@ theorem pushNone_complete : ∀ (b : B) (dt : DataType) (n : Bool) (md : Metadat
     exact (bind_ok _ _ _).2 ⟨_, hv, (bind_ok _ _ _).2 ⟨_, hfs, rfl⟩⟩
   | .dictionary p idx vals index, dt, n, md, lv, _, hs, _, hi => by
     simp only [Shape] at hs
-    obtain ⟨⟨kdt, vdt, rfl⟩, hil, hnl, _⟩ := hs
+    obtain ⟨⟨kdt, vdt, rfl, hsv⟩, hil, hnl, _⟩ := hs
     have hn := interpNull_nullable hi (by simp)
     obtain ⟨p', t, v, vals', rfl⟩ := isIntLeaf_form hil
     simp only [B.isNullable] at hnl
